@@ -313,7 +313,10 @@ PROPS = {
                    {"name": "C03", "quick": 120, "thorough": 4000, "workers": 4, "config": "[network]\ncache_size = 2\npreload_amount = 0\ntimeout_seconds = 0\n"},
                    # ... and the interface under the largest accepted sizes, and with nothing preloaded
                    {"name": "C07", "quick": 24, "thorough": 400, "workers": 8, "config": "[network]\npreload_amount = 2147483647\ncache_size = 9223372036854775807\n"},
-                   {"name": "C07", "quick": 24, "thorough": 400, "workers": 8, "config": "[network]\npreload_amount = 0\ncache_size = 1\n"}],
+                   {"name": "C07", "quick": 24, "thorough": 400, "workers": 8, "config": "[network]\npreload_amount = 0\ncache_size = 1\n"},
+                   # hooks that name the media type are accepted: links of every kind (typed, untyped, with something that is
+                   # no media type) opened through them
+                   {"name": "media", "quick": 400, "thorough": 12000, "workers": 12}],
         "rule": "hexToAnsi on valid, near-valid (one bad digit, signs, underscores, wrong length, non-ASCII digits) and random strings; configuration files generated value-first (colours, preload_amount/timeout_seconds/cache_size from {-1000..1000} and from the edges of int32, of a duration in seconds and of int64, key names in other letter cases, values of other TOML types (durations as strings, floats, booleans, hex/octal/underscored integers, inline tables, dotted keys: the model starts from what the decoder produced), hooks of 0..3 arguments, unknown keys/tables, syntax errors, missing file) "
                 "then serialised to TOML and loaded by the real parse+postprocess; C19x walks the 16^6 colour space (a stride sample in quick, all of it in thorough); non-trivial = colour accepted / configuration not rejected by TOML itself; distinct by op content",
         "trusted": ["BurntSushi/toml decoding (the model starts from the decoded values; TOML-level rejections are the generator's ground truth)",
@@ -321,6 +324,9 @@ PROPS = {
         "assumptions": ["Config.Safe is the only configuration hypothesis used by the panic-freedom theorems of C06/C07/C20"],
     },
     "C20": {
+        # what the hook is handed is the subject of the property: the model's argv (Hook.build over the link
+        # and media type the selection model picks, C20b) is the argv the statement describes
+        "correspondence_is_failure": {"media": True, "hook": True},
         "lean_modules": ["Props.Facts19", "Props.C20b", "Props.Facts20", "Props.Gen20", "Props.GenT20", "Props.Gen20h", "Props.GenT20h", "Props.Gen03m", "Props.GenT03m", "Props.Gen12", "Props.GenT12"],
         "groups": [{"name": "C20", "quick": 600, "thorough": 20000, "workers": 12},
                    {"name": "media", "quick": 600, "thorough": 20000, "workers": 12},
